@@ -22,6 +22,7 @@ import sys
 import tempfile
 
 RECORD = ""
+SEED = 0
 BASELINE_CHECK = os.path.join(os.path.dirname(os.path.abspath(__file__)),
                               "baseline_check.py")
 HERE = os.path.dirname(os.path.dirname(os.path.abspath(__file__)))
@@ -193,7 +194,7 @@ def do_run(ids, tier, all_checks, props_extra):
       if all_checks:
         props = ["C%02d" % i for i in range(1, 21)]
       for p in props:
-        rc, keys = run_check(p, tmp, tier)
+        rc, keys = run_check(p, tmp, tier, SEED)
         rows.append((sid, p, {0: "silent", 1: "caught"}.get(rc, "rc=%d" % rc),
                      "; ".join(keys)[:200]))
         print("%-8s %-4s %-7s %s" % rows[-1], flush=True)
@@ -221,11 +222,13 @@ def main():
   ap.add_argument("--all-checks", action="store_true")
   ap.add_argument("--also", nargs="*", default=[])
   ap.add_argument("--tag", default="", help="import: id prefix, e.g. r2-")
+  ap.add_argument("--seed", type=int, default=0, help="run: VERIF_SEED")
   ap.add_argument("--record", default="",
                   help="note stored in meta.json (what was strengthened)")
   a = ap.parse_args()
-  global RECORD
+  global RECORD, SEED
   RECORD = a.record
+  SEED = a.seed
   global ALLCHECKS
   ALLCHECKS = a.all_checks
   if a.cmd == "import-refactor":
